@@ -8,6 +8,7 @@ import (
 	"github.com/grindlemire/go-lucene/pkg/driver"
 	"github.com/grindlemire/go-lucene/pkg/lucene/expr"
 	"github.com/grindlemire/go-lucene/pkg/lucene/reduce"
+	"strconv"
 	"strings"
 )
 
@@ -147,6 +148,13 @@ func lemmaStructuralTokens(op lex.TokType) {}
 //@   ensures  result == ShiftSpec(p.nonTerminals[len(p.nonTerminals)-1].Typ, next.Typ)
 //@   lemma table before "return lex.HasLessPrecedence(curr, next)": if IsOp(curr.Typ) && IsOp(next.Typ) { lemmaPrecedenceTable(curr.Typ, next.Typ) }; if IsOp(curr.Typ) { lemmaStructuralTokens(curr.Typ) }; if IsOp(next.Typ) { lemmaStructuralTokens(next.Typ) }
 
+// IsDecimalInt / DecimalInt: the word is a base-10 integer as strconv.Atoi reads it.
+func IsDecimalInt(s string) bool { _, err := strconv.Atoi(s); return err == nil }
+func DecimalInt(s string) int    { v, _ := strconv.Atoi(s); return v }
+
+// IsFloatText: the word is a decimal number as strconv.ParseFloat reads it.
+func IsFloatText(s string) bool { _, err := strconv.ParseFloat(s, 64); return err == nil }
+
 // ---- literals --------------------------------------------------------------------------------------
 
 //@ func parseLiteral
@@ -156,6 +164,9 @@ func lemmaStructuralTokens(op lex.TokType) {}
 //@   ensures  reduce.IsE(e) && expr.ParserLeaf(reduce.E(e))
 //@   ensures[quoted-is-string] token.Typ == lex.TQuoted ==> reduce.E(e).Op == expr.Literal && reduce.E(e).Left == any(strings.ReplaceAll(token.Val, "\"", ""))
 //@   ensures[regexp] token.Typ == lex.TRegexp ==> reduce.E(e).Op == expr.Regexp && reduce.E(e).Left == any(token.Val)
+//@   ensures[decimal-integer] token.Typ == lex.TLiteral && IsDecimalInt(token.Val) ==> reduce.E(e).Op == expr.Literal && reduce.E(e).Left == any(DecimalInt(token.Val))
+//@   ensures[wildcard] token.Typ == lex.TLiteral && !IsDecimalInt(token.Val) && !IsFloatText(token.Val) && strings.ContainsAny(token.Val, "*?") ==> reduce.E(e).Op == expr.Wild && reduce.E(e).Left == any(token.Val)
+//@   ensures[unescaped-word] token.Typ == lex.TLiteral && !IsDecimalInt(token.Val) && !IsFloatText(token.Val) && !strings.ContainsAny(token.Val, "*?") ==> reduce.E(e).Op == expr.Literal && reduce.E(e).Left == any(strings.ReplaceAll(token.Val, "\\", ""))
 
 // ---- reduce: pop the shortest stack suffix on which a rule fires --------------------------------
 
@@ -214,6 +225,7 @@ func RInv(p *parser, top []any) bool {
 //@   lemma pushlit before "p.stack = append(p.stack, lit)": reduce.LemmaNTokPrefix(append(p.stack, lit), p.stack, len(p.stack)); expr.LemmaLeafParsed(reduce.E(lit))
 //@   lemma pushtok before "p.stack = append(p.stack, tok)": reduce.LemmaNTokPrefix(append(p.stack, tok), p.stack, len(p.stack))
 //@   assert implicit-and-shiftable before "p.stack = append(p.stack, implAnd)": p.shouldShift(implAnd)
+//@   assert operand-follows-token before "p.stack = append(p.stack, lit)": len(p.stack) == 0 || reduce.IsTok(p.stack[len(p.stack)-1])
 
 //@ func Parse
 //@   props C10 C01
@@ -247,6 +259,7 @@ func RInv(p *parser, top []any) bool {
 // imports used by the directive comments only
 var (
 	_ = strings.ReplaceAll
+	_ = strconv.Atoi
 	_ = verifspec.B2I
 	_ = expr.LeafOp
 	_ = reduce.IsTok
